@@ -723,6 +723,7 @@ package dials
 
 //@ func dials.(*deepCopier).registerPair(d, in, out)
 //@   props C03
+//@   flag record registerPair
 //@   safety C16 C03
 //@   requires wfCopier(d) && valid(in) && valid(out) && vtype(in) == vtype(out)
 //@   modifies maps:deepCopier.ptrMap
@@ -738,11 +739,13 @@ package dials
 //@   requires C02_input_is_older_than_the_copier: allocT(vroot(in)) < allocT(d) && oldHeap(d)
 //@   requires wf_memo_holds_only_nodes_of_the_finite_input_graph: memoRoom(d) >= 0
 //@   decreases memoRoom(d), boxDepth(in), vrank(vtype(in)), 2
-//@   modifies rh, maps:deepCopier.ptrMap, maps:deepCopier.mapMap
+//@   modifies rh, maps:deepCopier.ptrMap, maps:deepCopier.mapMap, rec_registerPair
+//@   ensures C03_every_copied_value_is_registered_for_sharing: rec_registerPair_cnt >= old(rec_registerPair_cnt) + 1
+//@        && rec_registerPair_arg1[old(rec_registerPair_cnt)] == in && rec_registerPair_arg2[old(rec_registerPair_cnt)] == out
 //@   ensures memoOK(d) && oldHeap(d)
 //@   ensures C02_objects_older_than_the_copier_are_never_written: olderThanCopierUntouched(d, old(rh))
 //@   ensures C02_writes_stay_below_the_destination: writesStayBelow(out, old(rh), old(clock))
-//@   ensures C03_memo_only_grows: memoRoom(d) <= old(memoRoom(d))
+//@   ensures C03_memo_only_grows: memoRoom(d) <= old(memoRoom(d)) && rec_registerPair_cnt >= old(rec_registerPair_cnt)
 
 //@ func dials.(*deepCopier).deepCopyStruct(d, in, out)
 //@   props C02 C03
@@ -751,17 +754,17 @@ package dials
 //@   requires C02_input_is_older_than_the_copier: allocT(vroot(in)) < allocT(d) && oldHeap(d) && kind(vtype(in)) == Struct && canSet(out)
 //@   requires wf_memo_holds_only_nodes_of_the_finite_input_graph: memoRoom(d) >= 0
 //@   decreases memoRoom(d), boxDepth(in), vrank(vtype(in)), 1
-//@   modifies rh, maps:deepCopier.ptrMap, maps:deepCopier.mapMap
+//@   modifies rh, maps:deepCopier.ptrMap, maps:deepCopier.mapMap, rec_registerPair
 //@   loop 0:
 //@     invariant 0 <= i && i <= numField(vtype(in))
 //@     invariant memoOK(d) && oldHeap(d)
 //@     invariant C02_objects_older_than_the_copier_are_never_written: olderThanCopierUntouched(d, old(rh))
 //@     invariant C02_writes_stay_below_the_destination: writesStayBelow(out, old(rh), old(clock))
-//@     invariant C03_memo_only_grows: memoRoom(d) <= old(memoRoom(d))
+//@     invariant C03_memo_only_grows: memoRoom(d) <= old(memoRoom(d)) && rec_registerPair_cnt >= old(rec_registerPair_cnt)
 //@   ensures memoOK(d) && oldHeap(d)
 //@   ensures C02_objects_older_than_the_copier_are_never_written: olderThanCopierUntouched(d, old(rh))
 //@   ensures C02_writes_stay_below_the_destination: writesStayBelow(out, old(rh), old(clock))
-//@   ensures C03_memo_only_grows: memoRoom(d) <= old(memoRoom(d))
+//@   ensures C03_memo_only_grows: memoRoom(d) <= old(memoRoom(d)) && rec_registerPair_cnt >= old(rec_registerPair_cnt)
 
 //@ func dials.(*deepCopier).deepCopyPtr(d, in, out)
 //@   props C02 C03
@@ -770,11 +773,11 @@ package dials
 //@   requires C02_input_is_older_than_the_copier: allocT(vroot(in)) < allocT(d) && oldHeap(d) && kind(vtype(in)) == Ptr && canSet(out)
 //@   requires wf_memo_holds_only_nodes_of_the_finite_input_graph: memoRoom(d) >= 0
 //@   decreases memoRoom(d), boxDepth(in), vrank(vtype(in)), 1
-//@   modifies rh, maps:deepCopier.ptrMap, maps:deepCopier.mapMap
+//@   modifies rh, maps:deepCopier.ptrMap, maps:deepCopier.mapMap, rec_registerPair
 //@   ensures memoOK(d) && oldHeap(d)
 //@   ensures C02_objects_older_than_the_copier_are_never_written: olderThanCopierUntouched(d, old(rh))
 //@   ensures C02_writes_stay_below_the_destination: writesStayBelow(out, old(rh), old(clock))
-//@   ensures C03_memo_only_grows: memoRoom(d) <= old(memoRoom(d))
+//@   ensures C03_memo_only_grows: memoRoom(d) <= old(memoRoom(d)) && rec_registerPair_cnt >= old(rec_registerPair_cnt)
 
 //@ func dials.(*deepCopier).deepCopyIface(d, in, out)
 //@   props C02 C03
@@ -783,11 +786,11 @@ package dials
 //@   requires C02_input_is_older_than_the_copier: allocT(vroot(in)) < allocT(d) && oldHeap(d) && kind(vtype(in)) == Interface && canSet(out)
 //@   requires wf_memo_holds_only_nodes_of_the_finite_input_graph: memoRoom(d) >= 0
 //@   decreases memoRoom(d), boxDepth(in), vrank(vtype(in)), 1
-//@   modifies rh, maps:deepCopier.ptrMap, maps:deepCopier.mapMap
+//@   modifies rh, maps:deepCopier.ptrMap, maps:deepCopier.mapMap, rec_registerPair
 //@   ensures memoOK(d) && oldHeap(d)
 //@   ensures C02_objects_older_than_the_copier_are_never_written: olderThanCopierUntouched(d, old(rh))
 //@   ensures C02_writes_stay_below_the_destination: writesStayBelow(out, old(rh), old(clock))
-//@   ensures C03_memo_only_grows: memoRoom(d) <= old(memoRoom(d))
+//@   ensures C03_memo_only_grows: memoRoom(d) <= old(memoRoom(d)) && rec_registerPair_cnt >= old(rec_registerPair_cnt)
 
 //@ func dials.(*deepCopier).deepCopySlice(d, in, out)
 //@   props C02 C03
@@ -798,11 +801,11 @@ package dials
 //@   requires C02_settable_copy_still_aliases_the_input: canSet(out) ==> visnil(out) || vpointerH(rh, out) == vpointerH(rh, in)
 //@   requires wf_memo_holds_only_nodes_of_the_finite_input_graph: memoRoom(d) >= 0
 //@   decreases memoRoom(d), boxDepth(in), vrank(vtype(in)), 1
-//@   modifies rh, maps:deepCopier.ptrMap, maps:deepCopier.mapMap
+//@   modifies rh, maps:deepCopier.ptrMap, maps:deepCopier.mapMap, rec_registerPair
 //@   ensures memoOK(d) && oldHeap(d)
 //@   ensures C02_objects_older_than_the_copier_are_never_written: olderThanCopierUntouched(d, old(rh))
 //@   ensures C02_writes_stay_below_the_destination: writesStayBelow(out, old(rh), old(clock))
-//@   ensures C03_memo_only_grows: memoRoom(d) <= old(memoRoom(d))
+//@   ensures C03_memo_only_grows: memoRoom(d) <= old(memoRoom(d)) && rec_registerPair_cnt >= old(rec_registerPair_cnt)
 
 //@ func dials.(*deepCopier).deepCopyMap(d, in, out)
 //@   props C02 C03
@@ -812,7 +815,7 @@ package dials
 //@   requires C02_input_is_older_than_the_copier: allocT(vroot(in)) < allocT(d) && oldHeap(d) && kind(vtype(in)) == Map
 //@   requires wf_memo_holds_only_nodes_of_the_finite_input_graph: memoRoom(d) >= 0
 //@   decreases memoRoom(d), boxDepth(in), vrank(vtype(in)), 1
-//@   modifies rh, maps:deepCopier.ptrMap, maps:deepCopier.mapMap
+//@   modifies rh, maps:deepCopier.ptrMap, maps:deepCopier.mapMap, rec_registerPair
 //@   loop 0:
 //@     invariant C03_the_map_is_memoized_before_its_entries_are_copied: memoRoom(d) < old(memoRoom(d))
 //@     invariant !visnil(out) && young(d, vptr(out)) && allocT(vptr(out)) < clock && vptr(out) != nil
@@ -820,11 +823,11 @@ package dials
 //@     invariant memoOK(d) && oldHeap(d)
 //@     invariant C02_objects_older_than_the_copier_are_never_written: olderThanCopierUntouched(d, old(rh))
 //@     invariant C02_writes_stay_below_the_destination: writesStayBelow(out, old(rh), old(clock))
-//@     invariant C03_memo_only_grows: memoRoom(d) <= old(memoRoom(d))
+//@     invariant C03_memo_only_grows: memoRoom(d) <= old(memoRoom(d)) && rec_registerPair_cnt >= old(rec_registerPair_cnt)
 //@   ensures memoOK(d) && oldHeap(d)
 //@   ensures C02_objects_older_than_the_copier_are_never_written: olderThanCopierUntouched(d, old(rh))
 //@   ensures C02_writes_stay_below_the_destination: writesStayBelow(out, old(rh), old(clock))
-//@   ensures C03_memo_only_grows: memoRoom(d) <= old(memoRoom(d))
+//@   ensures C03_memo_only_grows: memoRoom(d) <= old(memoRoom(d)) && rec_registerPair_cnt >= old(rec_registerPair_cnt)
 
 // deepCopyArray(in, out): arrays, and slices whose backing array was just allocated by the copier
 //@ func dials.(*deepCopier).deepCopyArray(d, in, out)
@@ -839,14 +842,14 @@ package dials
 //@   requires C03_slices_arrive_as_unaddressable_views: kind(vtype(in)) == Slice ==> !canAddr(in) && !canAddr(out)
 //@   requires wf_memo_holds_only_nodes_of_the_finite_input_graph: memoRoom(d) >= 0
 //@   decreases memoRoom(d), boxDepth(in), vrank(vtype(in)), 0
-//@   modifies rh, maps:deepCopier.ptrMap, maps:deepCopier.mapMap
+//@   modifies rh, maps:deepCopier.ptrMap, maps:deepCopier.mapMap, rec_registerPair
 //@   loop 0:
 //@     invariant 0 <= z
 //@     invariant memoOK(d) && oldHeap(d)
 //@     invariant C02_objects_older_than_the_copier_are_never_written: olderThanCopierUntouched(d, old(rh))
 //@     invariant C02_writes_stay_below_the_destination: writesStayBelow(out, old(rh), old(clock))
-//@     invariant C03_memo_only_grows: memoRoom(d) <= old(memoRoom(d))
+//@     invariant C03_memo_only_grows: memoRoom(d) <= old(memoRoom(d)) && rec_registerPair_cnt >= old(rec_registerPair_cnt)
 //@   ensures memoOK(d) && oldHeap(d)
 //@   ensures C02_objects_older_than_the_copier_are_never_written: olderThanCopierUntouched(d, old(rh))
 //@   ensures C02_writes_stay_below_the_destination: writesStayBelow(out, old(rh), old(clock))
-//@   ensures C03_memo_only_grows: memoRoom(d) <= old(memoRoom(d))
+//@   ensures C03_memo_only_grows: memoRoom(d) <= old(memoRoom(d)) && rec_registerPair_cnt >= old(rec_registerPair_cnt)
